@@ -41,6 +41,9 @@ type Act struct {
 	Raw  string `json:"raw,omitempty"` // extra raw text inserted into the action (comments, braces); no $ inside
 	// NoAssign: the action never assigns $$ (the lhs keeps the fresh, zero value the parser starts a reduction with)
 	NoAssign bool `json:"noassign,omitempty"`
+	// Accum: the action adds to $$ instead of overwriting it ("$$ = $$ + ..."): the same value as long as a
+	// reduction starts with a fresh, zero $$ (Go variants only; an unassigned TypeScript field is undefined)
+	Accum bool `json:"accum,omitempty"`
 	// Plain: the action text depends only on the positions referenced and on whether a value is a
 	// string or an int - not on the rule number and not on the tags; no reduction log is written.
 	// Rules with the same shape then have byte-identical action text although their symbols use
@@ -293,8 +296,9 @@ type Value struct {
 	N int
 }
 
-// TagIsInt tells whether a union field holds an int (fields n, m) or a string (s, t).
-func TagIsInt(tag string) bool { return tag == "n" || tag == "m" }
+// TagIsInt tells whether a union field holds an int (fields n, m, nm) or a string (s, t, st).
+// The two-letter fields are the concatenations of two others on purpose.
+func TagIsInt(tag string) bool { return tag == "n" || tag == "m" || tag == "nm" }
 
 // Hash of a string into an int (verifL in the drivers).
 func StrHash(s string) int {
@@ -413,6 +417,9 @@ func (g *Grammar) ActionText(k int) string {
 			}
 			e += fmt.Sprintf(" + %d*%s", r.Act.Coef[i], x)
 		}
+		if r.Act.Accum {
+			return s + "; $$ = ($$ + " + e + ") % 10007"
+		}
 		return s + "; $$ = (" + e + ") % 10007"
 	}
 	e := fmt.Sprintf("\"(%d\"", k)
@@ -422,6 +429,9 @@ func (g *Grammar) ActionText(k int) string {
 			x = "verifI(" + x + ")"
 		}
 		e += " + \" \" + " + x
+	}
+	if r.Act.Accum {
+		return s + "; $$ = $$ + " + e + " + \")\""
 	}
 	return s + "; $$ = " + e + " + \")\""
 }
